@@ -107,3 +107,28 @@ theorem treeEntries_after_write (H : HashFn) (w : World) (es : List Entry) (hok 
     exact hwalk
 
 end W
+
+namespace C05
+
+open TreeBuild
+
+/-- **Snapshot read-back on the whole-repository model** (C02 `snapshot`, C05 `reset-readback`): once `commit()` has
+    stored the trees of the staged entries `es` in the World's object store, the World's own reader — `GetObject` of
+    the root id, `NewTree`, `getEntriesFromTree`, i.e. what `reset`, `status`, `restore --staged` and the next `commit`
+    read — returns exactly `es`. Hypotheses: well-formed paths (non-empty components, no NUL), 20-byte ids, the tree
+    objects written do not meet stored objects of other content (`W.Fit`, finite), sane sizes. Together with
+    `W.walk_mono` (more objects or more fuel never change what was read) this is the store-level half of "what Goit
+    reads from a commit is what it wrote" for the composed model. -/
+theorem world_readback (H : HashFn) (w : W.World) (es : List Entry) (hok : AllOK es) (heok : EntriesOK es)
+    (hfit : W.Fit w (TreeBuild.writeTree H es).writes.reverse) (hsmall : Small (TreeBuild.writeTree H es).writes)
+    (hfuel : TreeBuild.fuelFor es ≤ W.treeDepth) :
+    W.treeEntries H (W.putObjs w (TreeBuild.writeTree H es).writes.reverse) (TreeBuild.writeTree H es).id = some es :=
+  W.treeEntries_after_write H w es hok heok hfit hsmall hfuel
+
+/-- the tree reader is monotone in the store and in its nesting fuel -/
+theorem walk_monotone (H : HashFn) (st st' : Store)
+    (hst : ∀ id kd, Store.get H st id = .ok kd → Store.get H st' id = .ok kd)
+    (d d' : Nat) (data : Bytes) (ns : List Node) (hd : d ≤ d') (h : TreeCodec.walk H st d data = some ns) :
+    TreeCodec.walk H st' d' data = some ns := TreeCodec.walk_mono H st st' hst d d' data ns hd h
+
+end C05
